@@ -12,6 +12,7 @@ import ast
 from .core import AnalysisError, Repo, Report, call_name, nested_defs, norm, own_nodes
 from .paths import enum_paths
 from .resolve import rtext, run_block
+from .sem import inline
 
 MOD = "block_diagonalization"
 
@@ -36,14 +37,20 @@ def rule_helpers(rep: Report, repo: Repo):
     rets = _returns(f)
     if len(rets) != 1 or not (isinstance(rets[0].value, ast.Tuple) and len(rets[0].value.elts) == 2):
         raise AnalysisError(R, "_normalize_subspace_eigenvectors: does not return one pair")
+    # the two returned components: either two local lists (tuple(A), tuple(B)) or the two projections of one list of
+    # pairs (tuple(r for r, _ in P), tuple(l for _, l in P))
     lists = []
     for e in rets[0].value.elts:
         while isinstance(e, ast.Call) and call_name(e) in ("tuple", "list") and len(e.args) == 1:
             e = e.args[0]
-        if not isinstance(e, ast.Name):
+        if isinstance(e, ast.Name):
+            lists.append((e.id, None))
+        elif isinstance(e, (ast.GeneratorExp, ast.ListComp)) and len(e.generators) == 1 and not e.generators[0].ifs \
+                and isinstance(e.generators[0].iter, ast.Name) and isinstance(e.generators[0].target, ast.Tuple) \
+                and isinstance(e.elt, ast.Name) and [norm(t) for t in e.generators[0].target.elts].count(e.elt.id) == 1:
+            lists.append((e.generators[0].iter.id, [norm(t) for t in e.generators[0].target.elts].index(e.elt.id)))
+        else:
             raise AnalysisError(R, f"_normalize_subspace_eigenvectors: returned component `{norm(e)[:40]}` is not a local list")
-        lists.append(e.id)
-    RL, LL = lists
     seen = {}
     for is_pair in (True, False):
         def atom(n, is_pair=is_pair):
@@ -59,15 +66,26 @@ def rule_helpers(rep: Report, repo: Repo):
             for kind, st, rv in o.seq:
                 if kind == "stmt" and isinstance(rv, ast.Call) and isinstance(rv.func, ast.Attribute) and rv.func.attr == "append" \
                         and len(rv.args) == 1:
-                    apps.setdefault(norm(rv.func.value), []).append(norm(rv.args[0]))
-            apps_all.append(apps)
+                    apps.setdefault(norm(rv.func.value), []).append(rv.args[0])
+            # what each returned component receives on this path
+            got = []
+            for lname, proj in lists:
+                vals = apps.get(lname, [])
+                if proj is None:
+                    got.append([norm(v) for v in vals])
+                else:
+                    if not all(isinstance(v, ast.Tuple) and len(v.elts) > proj for v in vals):
+                        raise AnalysisError(R, "_normalize_subspace_eigenvectors: appended value is not a pair")
+                    got.append([norm(v.elts[proj]) for v in vals])
+            apps_all.append(got)
         if not apps_all:
             raise AnalysisError(R, "_normalize_subspace_eigenvectors: no non-raising path through the loop body")
         seen[is_pair] = apps_all
-    ok = all(a_ == {RL: [f"{var}[0]"], LL: [f"{var}[1]"]} for a_ in seen[True])
+    RL, LL = lists[0][0], lists[1][0]
+    ok = all(a_ == [[f"{var}[0]"], [f"{var}[1]"]] for a_ in seen[True])
     rep.check(ok, R, f"{MOD}::_normalize_subspace_eigenvectors a pair is (right, left) and goes to (right_subspaces, left_subspaces)",
-              f"appended {seen[True]}; returned (right, left) = ({RL}, {LL})", loc(f))
-    ok = all(a_ == {RL: [var], LL: [var]} for a_ in seen[False])
+              f"appended (right component, left component) = {seen[True]}", loc(f))
+    ok = all(a_ == [[var], [var]] for a_ in seen[False])
     rep.check(ok, R, f"{MOD}::_normalize_subspace_eigenvectors a single basis V is used as (V, V)", str(seen[False]), loc(f))
     rep.ok(R, f"{MOD}::_normalize_subspace_eigenvectors returns (right bases, left bases)", norm(rets[0].value), loc(f))
 
@@ -120,30 +138,99 @@ def rule_helpers(rep: Report, repo: Repo):
             ok = any(t in (f"2 * (len({z}),)", f"(len({z}),) * 2", f"(len({z}), len({z}))") for z in Z)
     rep.check(ok, R, f"{MOD}::_unpack_blocks the block grid is N x N with N = number of block rows of H_0", "", loc(f))
 
-    # -- _extract_diagonal ---------------------------------------------------------------------------------------
+    # -- _extract_diagonal: one energy array per diagonal block, in block order ------------------------------------------
+    from .sem import elementwise_map, ctext
     f = repo.find(f"{MOD}::_extract_diagonal", R)
-    loops = [n for n in own_nodes(f) if isinstance(n, ast.For) and norm(n.iter) == "h_0"]
-    ok = False
-    if len(loops) == 1:
-        body = loops[0].body
-        eg = [n for n in ast.walk(loops[0]) if isinstance(n, ast.Assign) and norm(n.targets[0]) == "eigs"]
-        zero_case = [n for n in body if isinstance(n, ast.If) and "block is zero" in norm(n.test)]
-        ok = bool(eg) and norm(eg[0].value) == "block.diagonal()" and len(zero_case) == 1 and \
-            norm(zero_case[0].body[0]) == "diags.append(np.array(0))"
-    rep.check(ok, R, f"{MOD}::_extract_diagonal energies of block i are the diagonal of H_0[i, i] (0 for an absent block)", "", loc(f))
-    h0 = [n for n in own_nodes(f) if isinstance(n, ast.Assign) and norm(n.targets[0]) == "h_0"]
-    ok = len(h0) == 1 and norm(h0[0].value) == "operator[(diag_indices, diag_indices) + (0,) * operator.n_infinite]"
-    rep.check(ok, R, f"{MOD}::_extract_diagonal reads the diagonal blocks (i, i) at order zero", "", loc(f))
-    rep.check([norm(r.value) for r in _returns(f)] == ["tuple(diags)"], R, f"{MOD}::_extract_diagonal returns the energies in block order", "", loc(f))
+    sc_ = Scope(repo.trees[MOD], f)
+    em = elementwise_map(f, sc_)
+    if em is None:
+        raise AnalysisError(R, "_extract_diagonal: not recognised as an element-wise map over the diagonal blocks")
+    it, V, paths = em
+    want_it = ctext(ast.parse("operator[(np.arange(operator.shape[0] - implicit), np.arange(operator.shape[0] - implicit)) + (0,) * operator.n_infinite]",
+                              mode="eval").body)
+    rep.check(ctext(it) == want_it, R, f"{MOD}::_extract_diagonal reads the diagonal blocks (i, i) at order zero", ctext(it)[:160], loc(f))
+    rep.ok(R, f"{MOD}::_extract_diagonal returns the energies in block order", "one value per element of the diagonal blocks, in iteration order", loc(f))
+    DIAG = f"{V}.diagonal()"
+    WANT = {
+        "absent": ("np.array(0)",),
+        "numeric": (DIAG,),
+        "sympy": (f"np.array({DIAG}, dtype=object)",),
+        "sympy+operators": (f"np.array([NumberOrderedForm.from_expr(_v0).simplify() for _v0 in {DIAG}], dtype=object)",
+                            f"np.array([NumberOrderedForm.from_expr(_v1).simplify() for _v1 in {DIAG}], dtype=object)"),
+    }
+    bad = []
+    for absent_zero, absent_masked, sym, ops in [(z, m, s_, o) for z in (0, 1) for m in (0, 1) for s_ in (0, 1) for o in (0, 1)]:
+        def atom(n):
+            t = norm(canon(n))
+            if t == f"{V} is zero":
+                return bool(absent_zero)
+            if t == f"{V} is np.ma.masked":
+                return bool(absent_masked)
+            if t == "operators":
+                return bool(ops)
+            if t == "is_sympy" or (t.startswith("any((isinstance(") and "sympy.MatrixBase" in t):
+                return bool(sym)
+            return None
+        taken = []
+        for conds, val in paths:
+            vals = [eval_bool(c, atom) for c, _p in conds]
+            if None in vals:
+                raise AnalysisError(R, f"_extract_diagonal: condition `{norm(conds[vals.index(None)][0])[:60]}` not understood")
+            if all(v == p for v, (_c, p) in zip(vals, conds)):
+                taken.append(val)
+        kind = "absent" if (absent_zero or absent_masked) else ("numeric" if not sym else ("sympy+operators" if ops else "sympy"))
+        got = [norm(resolved(v, {})) if v is not None else "<skipped>" for v in taken]
+        if len(got) != 1 or got[0] not in WANT[kind]:
+            bad.append((kind, got))
+    rep.check(not bad, R, f"{MOD}::_extract_diagonal energies of block i are the diagonal of H_0[i, i] (0 for an absent block)",
+              f"disagreeing cases {bad[:2]}" if bad else "absent -> np.array(0); numeric -> diagonal; symbolic -> object array (NumberOrderedForm-simplified with operators)", loc(f))
 
     # -- _preprocess_sylvester.wrapped -------------------------------------------------------------------------------
     f = repo.find(f"{MOD}::_preprocess_sylvester", R)
-    w = [d for d in nested_defs(f) if d.name == "wrapped"][0]
-    rets = [norm(r.value) for r in _returns(w)]
-    idx = [n for n in own_nodes(w) if isinstance(n, ast.If) and norm(n.test) == "isinstance(Y, BlockSeries)"]
-    ok = rets == ["solve_sylvester(Y) if Y is not zero else zero"] and len(idx) == 1 and norm(idx[0].body[0]) == "Y = Y[index]"
-    rep.check(ok, R, f"{MOD}::_preprocess_sylvester a legacy solver gets the element at the requested index; an absent right-hand side stays absent",
-              str(rets), loc(w))
+    ws = [d for d in f.body if isinstance(d, ast.FunctionDef) and isinstance(f.body[-1], ast.Return) and norm(f.body[-1].value) == d.name]
+    if len(ws) != 1 or [a_.arg for a_ in ws[0].args.args] != ["Y", "index"]:
+        raise AnalysisError(R, "_preprocess_sylvester: wrapper (Y, index) not found")
+    w = ws[0]
+    table = {}
+    for is_series in (True, False):
+        for absent in (True, False):
+            def atom(n):
+                t = norm(canon(n))
+                if t == "isinstance(Y, BlockSeries)":
+                    return is_series
+                if t == "Y is zero":
+                    return absent
+                if t == "Y is not zero":
+                    return not absent
+                return None
+            res = set()
+            for o in outcomes(w.body, None, env={}, atom=atom, opaque=("Y",)):
+                if o.kind == "raise":
+                    continue
+                if o.kind != "return":
+                    raise AnalysisError(R, "_preprocess_sylvester: path without return")
+                rebinds = []
+                for kind, st, rv in o.seq:
+                    if kind == "assign" and isinstance(st, ast.Assign) and norm(st.targets[0]) == "Y":
+                        while isinstance(rv, ast.IfExp):
+                            pick = eval_bool(rv.test, atom)
+                            if pick is None:
+                                raise AnalysisError(R, "_preprocess_sylvester: rebinding of Y depends on an unknown condition")
+                            rv = rv.body if pick else rv.orelse
+                        if norm(rv) != "Y":
+                            rebinds.append(norm(rv))
+                v = o.value
+                while isinstance(v, ast.IfExp):
+                    pick = eval_bool(v.test, atom)
+                    if pick is None:
+                        raise AnalysisError(R, "_preprocess_sylvester: returned value depends on an unknown condition")
+                    v = v.body if pick else v.orelse
+                res.add((tuple(rebinds), norm(v)))
+            table[(is_series, absent)] = sorted(res)
+    want = {(True, True): [(("Y[index]",), "zero")], (True, False): [(("Y[index]",), "solve_sylvester(Y)")],
+            (False, True): [((), "zero")], (False, False): [((), "solve_sylvester(Y)")]}
+    rep.check(table == want, R, f"{MOD}::_preprocess_sylvester a legacy solver gets the element at the requested index; an absent right-hand side stays absent",
+              str(table), loc(w))
 
     # -- _group_close_energies: a partition of the indices into groups closed under |E_a - E_b| <= atol ---------------
     f = repo.find(f"{MOD}::_group_close_energies", R)
@@ -171,14 +258,34 @@ def rule_helpers(rep: Report, repo: Repo):
     # -- second_quantization.apply_mask_to_operator + NumberOrderedForm.filter_terms: keep / discard are complementary ------
     f = repo.find("second_quantization::apply_mask_to_operator", R)
     from .sem import outcomes as _outcomes
-    loops = [n for n in ast.walk(f) if isinstance(n, ast.For) and not any(isinstance(x, ast.For) for s_ in n.body for x in ast.walk(s_))]
-    if len(loops) != 1 or not isinstance(loops[0].target, ast.Name):
+    # the element loop: the innermost loop that stores into the result matrix; (i, j) are read off the store target
+    stores = [n for n in ast.walk(f) if isinstance(n, ast.Assign) and isinstance(n.targets[0], ast.Subscript)
+              and isinstance(n.targets[0].slice, ast.Tuple) and len(n.targets[0].slice.elts) == 2 and norm(n.targets[0].value) == "result"]
+    if not stores:
+        raise AnalysisError(R, "apply_mask_to_operator: no store into the result matrix found")
+    ijs = {norm(n.targets[0].slice).strip("()") for n in stores}
+    if len(ijs) != 1:
+        raise AnalysisError(R, f"apply_mask_to_operator: stores at different positions {sorted(ijs)}")
+    IJ = next(iter(ijs))
+    I, J = (x.strip() for x in IJ.split(","))
+    loops = []
+    p_ = stores[0]
+    while p_ is not f and not loops:
+        p_ = p_._parent
+        if isinstance(p_, ast.For):
+            loops.append(p_)
+    if not loops:
         raise AnalysisError(R, "apply_mask_to_operator: element loop not found")
-    outer_loops = [n for n in ast.walk(f) if isinstance(n, ast.For) and loops[0] in n.body]
-    if len(outer_loops) != 1 or not isinstance(outer_loops[0].target, ast.Name):
-        raise AnalysisError(R, "apply_mask_to_operator: row loop not found")
-    I, J = outer_loops[0].target.id, loops[0].target.id
-    IJ = f"{I}, {J}"
+    L = loops[0]
+    outerL = getattr(L, "_parent", None)
+    if isinstance(L.target, ast.Tuple):
+        ok_grid = norm(L.target) == f"({I}, {J})" and isinstance(L.iter, ast.Call) and call_name(L.iter) in ("product", "itertools.product") \
+            and [norm(a_) for a_ in L.iter.args] == ["range(operator.rows)", "range(operator.cols)"]
+    else:
+        ok_grid = isinstance(outerL, ast.For) and norm(outerL.target) == I and norm(L.target) == J \
+            and norm(outerL.iter) in ("range(operator.rows)", "range(operator.shape[0])") and norm(L.iter) in ("range(operator.cols)", "range(operator.shape[1])")
+    if not ok_grid:
+        raise AnalysisError(R, "apply_mask_to_operator: iteration over the matrix elements not understood")
     table = {}
     for keep in (True, False):
         for empty_mask in (True, False):
@@ -196,23 +303,58 @@ def rule_helpers(rep: Report, repo: Repo):
                 stores = []
                 for kind, st, rv in o.seq:
                     if kind == "assign" and isinstance(st, ast.Assign) and norm(st.targets[0]) == f"result[{IJ}]":
-                        stores.append(norm(rv))
+                        stores.append(ctext(rv))
                 res.add(tuple(stores))
             table[(keep, "empty mask" if empty_mask else "mask")] = sorted(res)
     VAL = f"operator[{IJ}]"
     NOF = f"NumberOrderedForm.from_expr({VAL})._combine_operators(mask[{IJ}])"
     # (the combined mask is written back to mask[i, j] by the same unpacking, so `mask[i, j].terms` are the combined terms)
-    filt = [(f"{NOF}[0].filter_terms(tuple(mask[{IJ}].terms), keep)",)]
+    filt = [(f"{NOF}[0].filter_terms(tuple(mask[{IJ}].terms), keep)",), (f"{NOF}[0].filter_terms(tuple(mask[{IJ}].terms), keep=keep)",)]
     ok = table.get((True, "empty mask")) == [()] and table.get((False, "empty mask")) == [(VAL,)] and \
-        table.get((True, "mask")) == filt and table.get((False, "mask")) == filt
+        table.get((True, "mask")) in ([x] for x in filt) and table.get((False, "mask")) in ([x] for x in filt)
     rep.check(ok, R, "second_quantization::apply_mask_to_operator an empty mask entry selects nothing (keep) / everything (discard); otherwise filter_terms(mask terms, keep)",
               str({k: [tuple(x[:90] for x in t) for t in v] for k, v in table.items()}), repo.loc("second_quantization", f))
     ft = repo.find("number_ordered_form::NumberOrderedForm::filter_terms", R)
-    comps = [n for n in ast.walk(ft) if isinstance(n, ast.GeneratorExp) and n.generators[0].ifs]
-    ok = False
-    if comps:
-        cond = comps[0].generators[0].ifs[0]
-        t = norm(cond)
-        ok = t.startswith("not bool(keep) != any((all(((power - ref).is_zero is not False for power, ref in zip(powers, condition)))")
+    comps = [n for n in ast.walk(ft) if isinstance(n, (ast.GeneratorExp, ast.ListComp)) and n.generators[0].ifs
+             and norm(n.generators[0].iter) in ("self.args[1]", "self.terms.items()")]
+    if len(comps) != 1 or len(comps[0].generators[0].ifs) != 1 or not isinstance(comps[0].generators[0].target, ast.Tuple):
+        raise AnalysisError(R, "filter_terms: selection of the terms not found as one filtered comprehension")
+    gen = comps[0].generators[0]
+    pw = norm(gen.target.elts[0])
+    sel = inline(gen.ifs[0], Scope(repo.trees["number_ordered_form"], ft))
+    MATCH = (f"any((all(((_v0 - _v1).is_zero is not False for _v0, _v1 in zip({pw}, _v2))) for _v2 in conditions))",
+             f"any((all(((_v1 - _v2).is_zero is not False for _v1, _v2 in zip({pw}, _v0))) for _v0 in conditions))")
+
+    def beval(e, k, m):
+        """value of a boolean expression over the atoms keep (k) and `the term matches some condition` (m); None = unknown"""
+        e = canon(e) if not isinstance(e, ast.Constant) else e
+        if isinstance(e, ast.UnaryOp) and isinstance(e.op, ast.Not):
+            v = beval(e.operand, k, m)
+            return None if v is None else (not v)
+        if isinstance(e, ast.BoolOp):
+            vs = [beval(x, k, m) for x in e.values]
+            if None in vs:
+                return None
+            return all(vs) if isinstance(e.op, ast.And) else any(vs)
+        if isinstance(e, ast.Compare) and len(e.ops) == 1 and isinstance(e.ops[0], (ast.Eq, ast.NotEq, ast.Is, ast.IsNot)):
+            l, r = beval(e.left, k, m), beval(e.comparators[0], k, m)
+            if l is None or r is None:
+                return None
+            return (l == r) if isinstance(e.ops[0], (ast.Eq, ast.Is)) else (l != r)
+        if isinstance(e, ast.IfExp):
+            t = beval(e.test, k, m)
+            return None if t is None else beval(e.body if t else e.orelse, k, m)
+        t = rtext(e, {})
+        if t in ("keep", "bool(keep)"):
+            return k
+        if t in MATCH:
+            return m
+        if isinstance(e, ast.Constant) and isinstance(e.value, bool):
+            return e.value
+        return None
+    rows = {(k, m): beval(sel, k, m) for k in (False, True) for m in (False, True)}
+    if None in rows.values():
+        raise AnalysisError(R, f"filter_terms: selection condition `{norm(sel)[:100]}` not understood")
+    ok = all(v == (k == m) for (k, m), v in rows.items())
     rep.check(ok, R, "number_ordered_form::NumberOrderedForm.filter_terms keeps a term iff (it matches some condition) == keep",
-              "so filter_terms(c, True) + filter_terms(c, False) is the whole form", repo.loc("number_ordered_form", ft))
+              f"(keep, matches) -> selected: {rows}; so filter_terms(c, True) + filter_terms(c, False) is the whole form", repo.loc("number_ordered_form", ft))
